@@ -25,7 +25,9 @@ META = {
     "assumptions": [],
     "not_decided": "equality of the rebuilt view with the source slice and applicability of every emitted diff for all integer values of limit/count/len/index (arithmetic)",
 }
+META["technique"] = "static analysis: dominance / provenance / typestate rules over rustc MIR facts (rustc_private driver) + path-partitioned abstract interpretation in a linear-inequality domain (view-length balance; Fourier-Motzkin emptiness, no execution, no external solver)"
 META["explanation"] += " R09.11 imbl's asserting partial calls (take / split_at / split_off / slice) in the Head, Tail, Skip modules take a position bounded by the vector's length, never one made of the limit / count alone (it panics for a limit beyond the length)."
+META["explanation"] += " R09.12 view-length balance (engine/rules/balance.py): a path-partitioned abstract interpretation in the domain of linear inequalities over L/C (limit, count), P (previous length), I, K (payload index / length), A, R (payload sizes), N, O (buffer length, old limit in the update functions): on every path of every arm of the three translators and of update_limit / update_count the length of the consumer's view after the emitted diffs, view(P) + effects, equals view(N') for the new source length in every feasible case (min / saturating_sub split into linear pieces, emptiness by Fourier-Motzkin elimination, a violation only with a concrete witness of the symbols); R09.13 every emitted Insert / Set / Remove index lies inside the view it is applied to and its computation does not underflow; R09.14 every item the poll function returns comes out of the container operations (translator / update function), never the polled source item itself."
 
 
 def run(ctx):
